@@ -137,6 +137,16 @@ def build_history(ex, variant):
         # finished, or interrupted after its second hunk
         if ex.branch(ex.fresh_bool('newest_closed'), 'band closed?'):
             A.put_tail(ex, st, 0, 2)
+    elif variant == 'deep':
+        # a finished band of three hunks and an unfinished newer one of two hunks that stitches onto it for its tail
+        A.put_head(ex, st, 0)
+        A.put_hunk(ex, st, 0, 0, [root(), A.mk_entry(ex, '/a', 'File', 2, addrs=[block('A', 1)], mode=0o644)])
+        A.put_hunk(ex, st, 0, 1, [A.mk_entry(ex, '/b', 'File', 3, addrs=[block('B', 2)], mode=0o600)])
+        A.put_hunk(ex, st, 0, 2, [A.mk_entry(ex, '/c', 'File', 4, addrs=[block('C', 3)], mode=0o644)])
+        A.put_tail(ex, st, 0, 3)
+        A.put_head(ex, st, 1)
+        A.put_hunk(ex, st, 1, 0, [root(), A.mk_entry(ex, '/a', 'File', 5, addrs=[block('Z', 4)], mode=0o644)])
+        A.put_hunk(ex, st, 1, 1, [A.mk_entry(ex, '/b', 'File', 3, addrs=[A.mk_addr(ex, blk['B'], 0, sz['B'])], mode=0o600)])
     elif variant == 'multi':
         # a file stored in two blocks next to a single-block file
         m1 = A.put_block(ex, st, Data([(5, 0, sz['M'])]))
